@@ -189,7 +189,7 @@ class Ctx:
         """Record a refuting observation for the current case."""
         w = {"kind": kind, "case": self.current_case,
              # ambient conditions of this process that a replay has to reproduce
-             "ambient": {"PYTHONHASHSEED": os.environ.get("PYTHONHASHSEED", "")}}
+             "ambient": {k: os.environ.get(k, "") for k in AMBIENT_KEYS}}
         if witness is not None:
             w["witness"] = jsonable(witness)
         w.update(jsonable(extra))
@@ -222,9 +222,58 @@ class Ctx:
         }
 
 
+AMBIENT_KEYS = ("PYTHONHASHSEED", "PYTHONOPTIMIZE", "JSVERIF_AMBIENT")
+
+
+def apply_ambient():
+    """The 'ambient' lane: process settings that are unusual but perfectly legitimate and that the
+    library's results must not depend on.  Applied inside the process when JSVERIF_AMBIENT=1 (the
+    interpreter-level ones - python -O, another hash seed - come through the environment)."""
+    if os.environ.get("JSVERIF_AMBIENT") != "1":
+        return False
+    import warnings
+    import numpy as np
+    import matplotlib
+    # the modules the library needs are imported first: what they warn about while being imported
+    # is not the library's business
+    import job_shop_lib  # noqa: F401
+    import job_shop_lib.dispatching.rules  # noqa: F401
+    import job_shop_lib.dispatching.feature_observers  # noqa: F401
+    import job_shop_lib.graphs.graph_updaters  # noqa: F401
+    import job_shop_lib.reinforcement_learning  # noqa: F401
+    import job_shop_lib.visualization  # noqa: F401
+    import job_shop_lib.generation  # noqa: F401
+    import job_shop_lib.constraint_programming  # noqa: F401
+    import job_shop_lib.benchmarking  # noqa: F401
+    import matplotlib.pyplot  # noqa: F401
+    import imageio  # noqa: F401
+    np.set_printoptions(threshold=4, edgeitems=1, precision=1, suppress=True, linewidth=40)
+    matplotlib.rcParams["savefig.format"] = "svg"
+    matplotlib.rcParams["figure.max_open_warning"] = 0
+    # warnings are errors in this process (a common CI setting) - those the library itself issues
+    # (a `warnings.warn` call in its own source files) and numpy's RuntimeWarnings; what other
+    # packages warn about on the library's behalf (matplotlib about a degenerate axis, ...) is
+    # left alone: the unchanged tree triggers some of those legitimately
+    lib_dir = os.path.dirname(os.path.abspath(job_shop_lib.__file__)) + os.sep
+    plain_warn = warnings.warn
+
+    def warn(message, category=None, stacklevel=1, *args, **kwargs):
+        caller = sys._getframe(1).f_code.co_filename
+        if os.path.abspath(caller).startswith(lib_dir):
+            if isinstance(message, Warning):
+                raise message
+            raise (category or UserWarning)(message)
+        return plain_warn(message, category, stacklevel + 1, *args, **kwargs)
+    warnings.warn = warn
+    warnings.filterwarnings("error", category=RuntimeWarning)
+    return True
+
+
 def run_shard(mod, ctx: Ctx, replay_case=None):
     """Execute one shard in this process; returns the partial dict."""
     from . import reach
+
+    ambient = apply_ambient()
 
     tracker = reach.Tracker(getattr(mod, "ANCHORS", []))
     tracker.start()
@@ -240,6 +289,8 @@ def run_shard(mod, ctx: Ctx, replay_case=None):
                 ctx.count("stopped_by_soft_budget")
                 break
             ctx.current_case = case
+            if ambient:
+                ctx.count("cases_under_python_O_and_unusual_numpy_matplotlib_warnings_settings")
             gseed = case.get("seed", 0) if isinstance(case, dict) else 0
             random.seed(f"case:{gseed}")
             try:
